@@ -3,7 +3,7 @@
    interpreter (C13/Model.v) of the tables REGENERATED from
    odl/discr/diff_ops.py:finite_diff into Gen/FiniteDiff.v. *)
 From Coq Require Import QArith Qreals Reals Lia List Bool.
-From Verif Require Import Base.Num Base.Vec Base.VecR Lib.Axis Lib.AxisR C13.Syntax Gen.FiniteDiff C13.Model C13.ModelNd C13.Proofs C13.ProofsNd C13.ProofsLap C13.ProofsAffine C13.ProofsLinear Base.Transfer C13.Transfer.
+From Verif Require Import Base.Num Base.Vec Base.VecR Lib.Axis Lib.AxisR C13.Syntax Gen.FiniteDiff C13.Model C13.ModelNd C13.Proofs C13.ProofsNd C13.ProofsLap C13.ProofsAffine C13.ProofsLinear Base.Transfer C13.Transfer Lib.AxisR2 C13.ProofsNdMore.
 Import ListNotations.
 Local Open Scope R_scope.
 
@@ -172,3 +172,87 @@ Theorem fd_is_linear_in_constant_and_array :
   fd m p (a * c1 + c2) dx (lin a f h) = lin a (fd m p c1 dx f) (fd m p c2 dx h).
 Proof. exact fd_linear. Qed.
 Print Assumptions fd_is_linear_in_constant_and_array.
+
+(* ------------------------------------------------------------------ *)
+(* The remaining N-d clauses: Gradient, Divergence and Laplacian equal  *)
+(* the textbook stencils along the axes, for arrays of EVERY shape.     *)
+(* ------------------------------------------------------------------ *)
+
+(* T1: component i of Gradient is the textbook stencil applied to every line
+   along axis i, divided by the cell side of that axis. *)
+Theorem gradient_textbook_all_shapes :
+  forall (shape : list nat) (m : meth) (p : pmode) (c : R) (dxs x : list R) (i : nat),
+  textbook_pair m p = true -> length dxs = length shape -> (i < length shape)%nat ->
+  (min_size p <= nth i shape 0)%nat -> length x = prodn shape ->
+  nth i (gradient shape m p c dxs x) [] = along_axis shape i (fd_ref m p c (nth i dxs 0)) x.
+Proof. exact gradient_textbook_nd. Qed.
+Print Assumptions gradient_textbook_all_shapes.
+
+(* T1: Divergence is the entry-wise sum over the axes of the partial derivative
+   of the axis-th component (each of which is the textbook stencil by
+   pderiv_textbook_all_shapes); [vsum n ds] adds the arrays ds to the zero array. *)
+Theorem divergence_is_sum_all_shapes :
+  forall (shape : list nat) (m : meth) (p : pmode) (c : R) (dxs : list R) (xs : list (list R)),
+  length dxs = length shape -> length xs = length shape -> (1 <= length shape)%nat ->
+  (2 <= nth 0 shape 0)%nat -> Forall (fun x => length x = prodn shape) xs ->
+  divergence shape m p c dxs xs = vsum (prodn shape) (pds_from shape 0 m p c dxs xs).
+Proof. exact divergence_is_sum_nd. Qed.
+Print Assumptions divergence_is_sum_all_shapes.
+
+(* T1: the Laplacian is the sum over the axes of the textbook second difference
+   (e[i-1] - 2 e[i] + e[i+1]) / dx^2 on every line extended by the named rule
+   ([lap_ref]), for the four base modes the class accepts. *)
+Theorem laplacian_textbook_all_shapes :
+  forall (shape : list nat) (p : pmode) (c : R) (dxs x : list R),
+  textbook_pair Forward p = true -> textbook_pair Backward p = true ->
+  length dxs = length shape ->
+  (forall i, (i < length shape)%nat -> (min_size p <= nth i shape 0)%nat /\ (2 <= nth i shape 0)%nat) ->
+  length x = prodn shape ->
+  laplacian shape p c dxs x = vsum (prodn shape) (lap_terms shape 0 p c dxs x).
+Proof. exact laplacian_textbook_nd. Qed.
+Print Assumptions laplacian_textbook_all_shapes.
+
+Example laplacian_base_modes_are_textbook :
+  forall p, In p [PConstant; PSymmetric; PPeriodic; POrder0] ->
+  lap_mode p = true /\ textbook_pair Forward p = true /\ textbook_pair Backward p = true /\ min_size p = 2%nat.
+Proof. intros p [<-|[<-|[<-|[<-|[]]]]]; repeat split; reflexivity. Qed.
+
+(* T1: "the derivative of the affine constant-padding variant is its
+   zero-padding version", for arrays of every shape and all four operators:
+   op_c (x + h) = op_c x + op_0 h exactly. *)
+Theorem pderiv_constant_padding_derivative_all_shapes :
+  forall (shape : list nat) (ax : nat) (m : meth) (c dx : R) (x h : list R),
+  (ax < length shape)%nat -> (2 <= nth ax shape 0)%nat ->
+  length x = prodn shape -> length h = prodn shape ->
+  pderiv shape ax m PConstant c dx (vadd x h) =
+  vadd (pderiv shape ax m PConstant c dx x) (pderiv shape ax m PConstant 0 dx h).
+Proof. exact pderiv_const_affine_nd. Qed.
+Print Assumptions pderiv_constant_padding_derivative_all_shapes.
+
+Theorem gradient_constant_padding_derivative_all_shapes :
+  forall (shape : list nat) (m : meth) (c : R) (dxs x h : list R),
+  length dxs = length shape -> (forall i, (i < length shape)%nat -> (2 <= nth i shape 0)%nat) ->
+  length x = prodn shape -> length h = prodn shape ->
+  gradient shape m PConstant c dxs (vadd x h) =
+  zipw vadd (gradient shape m PConstant c dxs x) (gradient shape m PConstant 0 dxs h).
+Proof. exact gradient_const_affine_all. Qed.
+Print Assumptions gradient_constant_padding_derivative_all_shapes.
+
+Theorem divergence_constant_padding_derivative_all_shapes :
+  forall (shape : list nat) (m : meth) (c : R) (dxs : list R) (xs hs : list (list R)),
+  length dxs = length shape -> length xs = length shape -> length hs = length shape ->
+  (forall i, (i < length shape)%nat -> (2 <= nth i shape 0)%nat) ->
+  Forall (fun x => length x = prodn shape) xs -> Forall (fun x => length x = prodn shape) hs ->
+  divergence shape m PConstant c dxs (zipw vadd xs hs) =
+  vadd (divergence shape m PConstant c dxs xs) (divergence shape m PConstant 0 dxs hs).
+Proof. exact divergence_const_affine_nd. Qed.
+Print Assumptions divergence_constant_padding_derivative_all_shapes.
+
+Theorem laplacian_constant_padding_derivative_all_shapes :
+  forall (shape : list nat) (c : R) (dxs x h : list R),
+  length dxs = length shape -> (forall i, (i < length shape)%nat -> (2 <= nth i shape 0)%nat) ->
+  length x = prodn shape -> length h = prodn shape ->
+  laplacian shape PConstant c dxs (vadd x h) =
+  vadd (laplacian shape PConstant c dxs x) (laplacian shape PConstant 0 dxs h).
+Proof. exact laplacian_const_affine_nd. Qed.
+Print Assumptions laplacian_constant_padding_derivative_all_shapes.
